@@ -166,6 +166,12 @@ func exerciseTx(t vk.TB, tn *testNode, wire []byte, meta *txCase) (stage string)
 	if serr != nil {
 		return "sanity:" + errCode(serr)
 	}
+	if tx.IsCoinBaseTx() {
+		// no caller runs the context check on a coinbase: the mempool refuses it
+		// before any check, block validation starts at transaction 1 and refuses
+		// a second coinbase in the sanity check
+		return "sanity-ok(coinbase)"
+	}
 	if p, pv, frame := vk.Catch(func() {
 		_, cerr = tn.Chain.CheckTransactionContext(height, tx, 0, tn.tip.Timestamp+1)
 	}); p {
